@@ -721,20 +721,20 @@ def body_small(case, ctx):
     op_rename(G, m, {"a": "x", "b": "a", "c": "b"}, True, ctx)
 
 
-_walk = Law("walk_queries_agree", walk_case(), body_walk, nt_basic, quick=120, thorough=1200,
+_walk = Law("walk_queries_agree", walk_case(), body_walk, nt_basic, quick=250, thorough=2000,
             shards=(2, 8))
-_enum = Law("enumeration_exact", enum_case(), body_enum, nt_basic, quick=100, thorough=1000,
+_enum = Law("enumeration_exact", enum_case(), body_enum, nt_basic, quick=250, thorough=2000,
             shards=(2, 6))
-_mult = Law("multiple_language", multiple_case(), body_multiple, nt_op, quick=120,
-            thorough=1200, shards=(2, 6))
-_ren = Law("rename_language", rename_case(), body_rename, nt_op, quick=100, thorough=1000,
-           shards=(1, 4))
-_rec = Law("recurrent_is_greatest", recurrent_case(), body_recurrent, nt_op, quick=150,
-           thorough=1500, shards=(1, 4))
-_rlp = Law("shortest_path_subgraph", rlp_case(), body_rlp, nt_op, quick=120, thorough=1200,
-           shards=(1, 4))
-_der = Law("queries_on_derived_automata", derived_case(), body_derived, nt_basic, quick=150,
-           thorough=1500, shards=(2, 8))
+_mult = Law("multiple_language", multiple_case(), body_multiple, nt_op, quick=250,
+            thorough=2000, shards=(2, 6))
+_ren = Law("rename_language", rename_case(), body_rename, nt_op, quick=200, thorough=2000,
+           shards=(2, 4))
+_rec = Law("recurrent_is_greatest", recurrent_case(), body_recurrent, nt_op, quick=300,
+           thorough=2500, shards=(2, 4))
+_rlp = Law("shortest_path_subgraph", rlp_case(), body_rlp, nt_op, quick=250, thorough=2000,
+           shards=(2, 4))
+_der = Law("queries_on_derived_automata", derived_case(), body_derived, nt_basic, quick=300,
+           thorough=2500, shards=(3, 8))
 _small = Law("small_automata_all_operations", None, body_small, nt_basic,
              exhaustive=exhaustive_small)
 _small.ex_shards = {"quick": 4, "thorough": 16}
